@@ -166,3 +166,17 @@ STATIC = [
     census.sites("sliding_semaphore.lower_limit_ writes", ["libs/pika/synchronization/src/detail/sliding_semaphore.cpp"],
                  r"\blower_limit_\s*=(?!=)", 2),
 ]
+
+
+# ---- C07 units reused (added after seeded changes C08-8 / C09-8 were missed): a waiter that is a plain OS thread (sync_wait's main
+# ---- thread, any std::thread) blocks and is woken through default_agent (execution_base/src/this_thread.cpp); resume() must wait
+# ---- until the target has really suspended, else a wake-up that arrives between "enqueued, lock dropped" and "asleep" is lost
+_c07 = {"UNITS": [], "VX_NO_REUSE": True}
+if not globals().get("VX_NO_REUSE"):     # reuse is never transitive: the other spec is loaded without ITS reuse blocks (no cycles)
+    exec(compile(open("/verif/specs/C07/spec.py").read(), "/verif/specs/C07/spec.py", "exec"), _c07)
+for _u in _c07["UNITS"]:
+    if _u.name in ("agent.da.ctor", "agent.da.suspend", "agent.da.resume", "agent.da.abort", "agent.da.lemma.rely_guarantee", "agent.da.lemma.suspend_resume"):
+        _u.name = "c07." + _u.name
+        _u.template = "../C07/" + _u.template.replace("../C07/", "")
+        UNITS.append(_u)
+META["trusted_base"] = list(META.get("trusted_base", [])) + ["units c07.agent.da.* are the C07 units of the same name (specs/C07/agent_da.c) with their trusted base"]
